@@ -107,6 +107,21 @@ package loading
 // critical section finds in the map is still there, as the same object, when the section ends (and other workers obey the
 // same rule, so at every acquire the map has only grown). A lookup made in one critical section and a store made in
 // another one breaks this.
+// "any malformed BUILD file yields an error": an error returned by a loader is handed to setError before the worker moves
+// on to the next file, whatever the loader says about `matched`.
+//@ func (*PackageLoader).LoadIfMatched(p, ctx, filePath, fileName) (dto, matched, err)
+//@   trusted
+//@   pure
+//@   ghostset loaderErrorPending := err != nil
+
+//@ func LoadPackages$1(err) ()
+//@   trusted
+//@   pure
+//@   ghostset loaderErrorPending := loaderErrorPending && err == nil
+
 //@ func LoadPackages$2() ()
+//@   requires [nothing_pending] !loaderErrorPending
+//@ loop #1
+//@   invariant [loader_errors_reported] !loaderErrorPending
 //@   lock_protocol loadedMutex guards loadedPackages [stored_packages_are_never_replaced] loadedPackages != nil &&
 //@        (forall k string :: {has(loadedPackages, k)} old(has(loadedPackages, k)) ==> has(loadedPackages, k) && loadedPackages[k] == old(loadedPackages[k]))
